@@ -112,7 +112,7 @@ where
                 drop(write_tx);
                 writer_handle.join().unwrap()
             }
-            State::Done => panic!("invalid state"),
+            State::Done => Err(already_finished_error()),
         }
     }
 
@@ -126,7 +126,7 @@ where
 
     fn send(&mut self) -> io::Result<()> {
         let State::Running { write_tx, .. } = &self.state else {
-            panic!("invalid state");
+            return Err(already_finished_error());
         };
 
         let (buffered_tx, buffered_rx) = crossbeam_channel::bounded(1);
@@ -187,6 +187,12 @@ where
             self.send()
         }
     }
+}
+
+// The writer was already finished, or the writer thread exited with an error that was already
+// returned to the caller.
+fn already_finished_error() -> io::Error {
+    io::Error::other("the writer is already finished")
 }
 
 fn spawn_writer<W>(mut writer: W, write_rx: WriteRx) -> JoinHandle<io::Result<W>>
